@@ -180,6 +180,10 @@ def norm(t, eff, env=None):
             inner[("app", "tuple_field", (f["elem"], ("lit", 0)))] = EL0
             inner[("app", "tuple_field", (f["elem"], ("lit", 1)))] = EL1
             seq = f["seq"]
+            if seq[0] == "iter" and seq[2] == "fwd" and seq[3] and all(isinstance(fl, tuple) and fl[0] == "chain" and isinstance(fl[1], tuple) and fl[1][:1] == ("iter",)
+                                                                      and fl[1][2] == "fwd" and not fl[1][3] for fl in seq[3]):
+                # `xs.into_iter().chain(ys)`: the elements of xs, then those of ys
+                seq = ("iter", ("app", "concat", (seq[1],) + tuple(fl[1][1] for fl in seq[3])), "fwd", ())
             if not (seq[0] == "iter" and seq[2] == "fwd" and not seq[3]):
                 sq = ("T", "%s (not a plain forward traversal)" % fmt_term(seq)[:80])
             else:
